@@ -414,6 +414,12 @@ func Payload(n int) []byte {
 // fixed-width byte field, ranging that field over its whole value alphabet ("one deviation from
 // base"). The callback receives a fresh clone each time plus a description of the varied field.
 func Variations(base *wire.N, encode func(*wire.N) []wire.Mark, seed int64, f func(t *wire.N, what string)) {
+	VariationsOf(base, encode, seed, nil, f)
+}
+
+// VariationsOf is Variations restricted to the fields keep accepts (nil: all). keep sees the node of
+// the base tree (a clone with the same structure) and the field name.
+func VariationsOf(base *wire.N, encode func(*wire.N) []wire.Mark, seed int64, keep func(node *wire.N, field string) bool, f func(t *wire.N, what string)) {
 	work := base.Clone()
 	marks := encode(work)
 	type site struct {
@@ -434,6 +440,9 @@ func Variations(base *wire.N, encode func(*wire.N) []wire.Mark, seed int64, f fu
 			continue
 		}
 		seen[key] = true
+		if keep != nil && !keep(m.Node, m.Name) {
+			continue
+		}
 		sites = append(sites, site{m.Node, m.Name, m.W, m.Role, m.Path})
 	}
 	for _, s := range sites {
